@@ -156,7 +156,7 @@ def compare_levels(d_out: str, n_out: str, files: dict[str, str]) -> list[tuple[
     for a, b in zip(pd, pn):
         if (a["col"], a["eline"], a["ecol"]) == (b["col"], b["eline"], b["ecol"]):
             continue
-        line = (files.get(a["file"], "").split("\n") + [""] * (a["line"] or 1))[(a["line"] or 1) - 1]
+        line = (re.split(r"\r\n|\r|\n", files.get(a["file"], "")) + [""] * (a["line"] or 1))[(a["line"] or 1) - 1]
         nonascii = not line.isascii()
         if a["col"] != b["col"]:
             if a["col"] is None or b["col"] is None:
@@ -210,7 +210,9 @@ def run(ctx: common.Ctx) -> None:
                     for b in x["bad_pos"]:
                         why = re.sub(r" ?\d+(\.\.\d+)?", "", b["why"]).replace(" ", "-")
                         if b["raw"].rstrip().endswith("[syntax]"):
-                            why += ":syntax-error"
+                            # CPython's 1-based SyntaxError.offset is passed on as a 0-based column, so every syntax error
+                            # is shown one column to the right; at the end of a line that is one past the newline position
+                            why += ":syntax-error" + (f":past-newline-by-{b['excess']}" if b.get("excess") else "")
                         ctx.violation(f"position-invalid:{side}:{why}", f"{b['why']}: {b['raw']}", {"task": t, "parser": side, "out": x["out"]}, case=t["_case"])
                 dsyn, nsyn = d["status"] == 2, n["status"] == 2
                 if "you likely need to run mypy using Python" in d["out"] or (
